@@ -23,6 +23,9 @@ def indexL (xs : List Int) (i : Int) : Except PyErr Int :=
     | some x => .ok x
     | none => .error .indexError
 
+/-- Python `~x` -/
+def lnot (x : Int) : Int := -x - 1
+
 /-- Python `ord(c)` -/
 def ord (c : Char) : Int := c.toNat
 
